@@ -103,7 +103,21 @@ def g_x(ctx):
 def g_typecheck(ctx):
     # quick: corpus in both build modes, shipped theories in module mode only (the repository's own test build compiles
     # their component mode); thorough: everything in both modes
-    return [rules_x.rule_typecheck(ctx.programs(), full=(ctx.tier == "thorough"))] + ctx.per_model([], lambda p: [])
+    import json as _json
+    import os as _os
+    from .core import RuleResult, Violation
+    full = ctx.tier == "thorough"
+    cache = _os.path.join(ctx.art.dir, "typecheck_%s.json" % ("full" if full else "quick"))
+    if _os.path.exists(cache):
+        d = _json.load(open(cache))
+        rr = RuleResult("T-TYPECHECK")
+        rr.instances, rr.samples, rr.counts = d["instances"], d["samples"], d["counts"]
+        rr.violations = [Violation(v["rule"], v["key"], v["where"], v["msg"], v["detail"]) for v in d["violations"]]
+    else:
+        rr = rules_x.rule_typecheck(ctx.programs(), full=full)
+        from .core import write_json
+        write_json(cache, {"instances": rr.instances, "samples": rr.samples, "counts": rr.counts, "violations": [v.to_json() for v in rr.violations]})
+    return [rr] + ctx.per_model([], lambda p: [])
 
 
 GROUPS = {
@@ -167,6 +181,17 @@ PROPERTIES = {
     "C16": {"rules": ["T-SEMI", "T-PLAN"], "level": "translation_validation"},
 }
 
-# floors: minimal number of rule instances over the corpus set alone (80% of the count measured when the rule was
-# written); a rule that matches fewer instances fails closed.
-FLOORS = {}
+# Floors: minimal number of rule instances (emitted-code rules: over the /verif/corpus set alone, which the framework
+# controls; other rules: total). About 80% of the count measured on the tree the rule was written against (2026-09-23,
+# tools/measure_floors.py); inventory rules (M-PANIC, M-DET, ..) fail closed through their anchors instead (roots, positive
+# example), since for them fewer instances is not vacuity. A rule below its floor is reported as ANCHOR:floor:<rule>.
+FLOORS = {
+    ("T-FAM", "quick"): 970, ("T-INS", "quick"): 790, ("T-MOVE", "quick"): 410, ("T-CANON", "quick"): 610, ("T-DIRTY", "quick"): 170,
+    ("T-DELTA", "quick"): 640, ("T-FUNC", "quick"): 40, ("T-PLAN", "quick"): 1340, ("T-SEMI", "quick"): 120, ("T-LOOP", "quick"): 1070,
+    ("T-PENDING", "quick"): 95, ("T-API", "quick"): 1100, ("T-ALLOC", "quick"): 95, ("T-ENUM", "quick"): 33, ("T-MOR", "quick"): 40,
+    ("T-AGE", "quick"): 820, ("T-PRUNE-USE", "quick"): 16, ("T-X", "quick"): 650, ("T-DET", "quick"): 710, ("T-TYPECHECK", "quick"): 150,
+    ("S-SIB", "quick"): 108, ("S-PRUNE", "quick"): 32, ("M-CBORDER", "quick"): 37, ("M-SIZE", "quick"): 13, ("M-BAL", "quick"): 7,
+    ("M-DIGEST", "quick"): 23, ("M-FREEZE", "quick"): 29, ("M-EMIT", "quick"): 13, ("M-PAR", "quick"): 8, ("M-MAPFREE", "quick"): 700,
+    ("M-UNSAFE", "quick"): 700, ("M-SYM", "quick"): 3, ("M-UF", "quick"): 4, ("M-LEN", "quick"): 4, ("M-DIRTAINT", "quick"): 3,
+    ("M-FUNCDOM", "quick"): 2,
+}
